@@ -1,14 +1,16 @@
 #!/bin/bash
-# usage: tools/seeded_verify.sh <worktree> "<demo build+run command, run from the worktree>"
+# usage: tools/seeded_verify.sh <worktree> "<demo build+run command>"
 # Confirms independently: tests pass with the change; demo fails with it and passes without it.
+# (Switches with git apply -R / git apply of _seeded/patch.diff: `git stash` is shared by all worktrees of a repository.)
 WT=$1; DEMO=$2
 cd $WT || exit 2
+git -C $WT diff --quiet -- src apps && git -C $WT apply $WT/_seeded/patch.diff   # make sure the change is in
 b() { cmake -G Ninja -B $WT/_work/build $WT >/dev/null 2>&1 && cmake --build $WT/_work/build >/dev/null 2>&1; }
 echo "== with change"; b || { echo BUILD-FAILED; exit 1; }
 ctest --test-dir $WT/_work/build -j8 2>&1 | grep "tests passed\|tests failed"
 ( eval "$DEMO" ) > /tmp/demo_with.out 2>&1; echo "demo rc(with change)=$?"; tail -3 /tmp/demo_with.out
-git -C $WT stash -q || exit 2
+git -C $WT apply -R $WT/_seeded/patch.diff || exit 2
 echo "== without change"; b
 ( eval "$DEMO" ) > /tmp/demo_without.out 2>&1; echo "demo rc(original)=$?"; tail -2 /tmp/demo_without.out
-git -C $WT stash pop -q
+git -C $WT apply $WT/_seeded/patch.diff
 b
